@@ -143,7 +143,6 @@ func countTxsData(bd module.BlockData) int {
 	return c
 }
 
-
 // decodeForged feeds a forged block encoding to the decoders of a live correct node directly (wire
 // decoder of the block manager and the chain-less BlockDataFactory), whatever the consensus engine
 // will make of the proposal later: neither may panic, both must agree on accept/reject, and whatever
